@@ -318,6 +318,94 @@ def many_bins_cases(draw):
             "profile": "many-bins-small-repeated", "seconds": 15}
 
 
+# ------------------------------------------------------------------ long searches of complete greedy
+
+def evaluate_long(case):
+    """Complete greedy (the one exact search that stays fast at this size) on 13-16 items with wide values, where its search expands
+    tens of thousands of states: the optimal value must scale with the values, must not depend on the search switches or on the
+    bins-manager, must equal the two-dimensional subset-sum optimum for 3 bins (subset-sum optimum for 2), and no heuristic may beat it."""
+    values, k, spec, c = case["values"], case["numbins"], case["objective"], case["c"]
+    labels = [f"k={k}", f"n={len(values)}", f"objective={spec}", f"factor={c}"]
+    sense = oracles.objective_value(spec, [0])[1]
+    fails, seen = [], {}
+
+    def run(name, vals, opts, out=None):
+        cs = {"alg": "cg", "values": vals, "numbins": k, "pres": "list", "nseed": 0, "opts": dict(opts, objective=spec)}
+        if out:
+            cs["out"] = out
+        o, obs = observe(cs)
+        if not o.ok:
+            fails.append(Failure(f"{PROP}/cg/long:exception:{o.exc_type}@{o.where}", dict(o.describe(), run=name)))
+            return None
+        if obs[0] != "value":
+            fails.append(Failure(f"{PROP}/cg/long:sums-do-not-describe-bins", {"run": name, "obs": sut.jsonable(obs)}))
+            return None
+        seen[name] = obs[1]
+        return obs[1]
+    base = run("default", values, {})
+    scaled = run(f"values-times-{c}", [v * c for v in values], {})
+    if base is not None and scaled is not None and scaled != base * c:
+        fails.append(Failure(f"{PROP}/cg/optimal-value-changed-under-scale",
+                             {"original": sut.jsonable(base), "transformed": sut.jsonable(scaled), "expected": sut.jsonable(base * c), "factor": c}))
+    variant = case.get("variant")
+    other = None
+    if variant == "sums-only":
+        other = run("sums-only", values, {}, out="Sums")
+    elif isinstance(variant, list):
+        other = run(f"switches={variant}", values, {"switches": variant})
+    if base is not None and other is not None and other != base:
+        worse = "default" if ((base > other) if sense == "min" else (base < other)) else "variant"
+        fails.append(Failure(f"{PROP}/cg/exact-solvers-disagree", {"objective": spec, "values_reported": sut.jsonable(seen), "worse": worse}))
+    if base is not None and k in (2, 3) and sum(values) <= 40000:
+        want = oracles.opt_two_way(values, spec) if k == 2 else oracles.opt_three_way(values, spec)
+        labels.append("independent-optimum")
+        if base != want:
+            fails.append(Failure(f"{PROP}/cg/long:not-the-optimal-value", {"objective": spec, "reported": sut.jsonable(base), "optimum": sut.jsonable(want)}))
+    if base is not None:
+        for h, bins in (("greedy", refmodels.lpt(values, k)),):
+            hv = oracles.objective_value(spec, [sum(b) for b in bins])[0]
+            if (hv < base) if sense == "min" else (hv > base):
+                fails.append(Failure(f"{PROP}/cg/heuristic-beats-exact-solver", {"objective": spec, "heuristic": h, "heuristic_value": sut.jsonable(hv),
+                                                                                 "exact_value": sut.jsonable(base)}))
+    lpt = oracles.objective_value(spec, [sum(b) for b in refmodels.lpt(values, k)])[0]
+    nontrivial = base is not None and lpt != base
+    return Result(fails, labels, nontrivial, None, {"reported": sut.jsonable(seen)}, subcases=len(seen))
+
+
+@st.composite
+def long_cases(draw):
+    k = draw(st.sampled_from([2, 3, 3, 3, 4, 4, 5]))
+    n = draw(st.integers(13, 16 if k <= 4 else 14))
+    hi = draw(st.sampled_from([60, 300, 1000, 1000, 1000, 5000]))
+    values = S.splitmix(draw(st.integers(0, 2 ** 40)), n, max(1, hi // 6), hi)
+    variant = draw(st.sampled_from([None, "sums-only", [1, 1, 1, 1], [1, 0, 0, 1], [1, 1, 0, 0], [1, 0, 1, 1]]))
+    return {"kind": "long", "values": values, "numbins": k, "objective": draw(st.sampled_from(["diff", "minmax", "maxmin"])),
+            "c": draw(st.sampled_from(FACTORS)), "variant": variant}
+
+
+def valid_long(case):
+    v, k = case.get("values"), case.get("numbins")
+    var = case.get("variant")
+    return (isinstance(v, list) and 2 <= len(v) <= 16 and all(isinstance(x, int) and x >= 0 for x in v) and isinstance(k, int) and 2 <= k <= 5
+            and case.get("objective") in ("diff", "minmax", "maxmin") and isinstance(case.get("c"), int) and 1 <= case["c"] <= 1024
+            and sum(v) <= 10 ** 6 and (var in (None, "sums-only") or (isinstance(var, list) and len(var) == 4 and var[0] in (0, 1) and var[0] == 1)))
+
+
+def shrink_long(case):
+    v = case["values"]
+    for i in range(len(v)):
+        if len(v) > 3:
+            yield dict(case, values=v[:i] + v[i + 1:])
+    if case.get("variant") is not None:
+        yield dict(case, variant=None)
+    if case["c"] != 2:
+        yield dict(case, c=2)
+    for i, x in enumerate(v):
+        for c in sorted({1, x // 2, x - 1}):
+            if 0 <= c < x:
+                yield dict(case, values=v[:i] + [c] + v[i + 1:])
+
+
 def valid_agreement(case):
     v, k = case.get("values"), case.get("numbins")
     return (isinstance(v, list) and 2 <= len(v) <= 16 and all(isinstance(x, int) and x >= 0 for x in v) and isinstance(k, int)
@@ -339,14 +427,21 @@ def shrink_agreement(case):
 
 
 def evaluate(case):
+    if case.get("kind") == "long":
+        return evaluate_long(case)
     return evaluate_agreement(case) if case.get("kind") == "agreement" else evaluate_pair(case)
 
 
 def valid(case):
+    if case.get("kind") == "long":
+        return valid_long(case)
     return valid_agreement(case) if case.get("kind") == "agreement" else valid_pair(case)
 
 
 def shrink(case):
+    if case.get("kind") == "long":
+        yield from shrink_long(case)
+        return
     if case.get("kind") == "agreement":
         yield from shrink_agreement(case)
         return
@@ -386,6 +481,13 @@ def legs(tier):
             "contents-keeping and through the sums-only bins-manager, in forked children with a kill-timeout: all must report the same "
             "optimal difference and no heuristic may beat them; same rule",
             strategy=many_bins_cases(), n_quick=160, n_thorough=3200, valid=valid, shrink=shrink, floor=0.05, case_timeout=600, shards=16),
+        Leg("long-searches", evaluate,
+            "hypothesis: complete greedy on 13-16 items with wide values (up to 60 | 300 | 1000 | 5000) and 2-5 bins, where its search "
+            "expands tens of thousands of states, each objective: the optimal value must be multiplied by the factor when the values "
+            "are (2 | 3 | 7 | 10 | 2^10), must be the same with other search switches (lower bound always on) or through the sums-only "
+            "bins-manager, must equal the subset-sum optimum (2 bins) or the two-dimensional subset-sum optimum (3 bins), and greedy may "
+            "not beat it; non-trivial = the greedy partition is not optimal",
+            strategy=long_cases(), n_quick=320, n_thorough=9600, valid=valid, shrink=shrink, floor=0.3, shards=16),
     ]
 
 
